@@ -279,6 +279,12 @@ def generate(seed, tier):
         o['duration'] = 60
     sc = workload.pair_scenario(seed, PROP, o)
     sc['meta']['batch'] = batch
+    if batch in ('loss', 'crash') and r.random() < 0.3:
+        # one endpoint always demands a cookie (threshold 0 counts the IKE_SA being created): every initial exchange towards it goes through
+        # the COOKIE retry, whose retransmissions are under the same clauses
+        who = r.choice('AB')
+        sc['controller_attrs'] = {who: {'cookie_threshold': 0}}
+        sc['meta']['cookie_mode'] = who
     if batch == 'loss' and r.random() < 0.5:
         # a burst in which (almost) everything from one side is lost: exercises whole retransmission ladders
         t0 = round(r.uniform(1.0, sc['until'] * 0.6), 3)
